@@ -527,6 +527,32 @@ theorem load_leaves_callers_objects (orc : Oracle) (env : Env) (h0 : Heap) :
     (∀ l, l < h0.length → (exec orc Effects.xsLoad (env, h0)).2[l]? = h0[l]?) :=
   ⟨safe_preserves orc _ env h0 (by decide), safe_preserves orc _ env h0 (by decide)⟩
 
+
+/-- the constructors the kinematics dicts of the observables card end up in
+(`EvaluatedStructureFunction`, `EvaluatedCrossSection`, the TMC wrapper): they read the dict and keep
+a reference, they store nothing into it -/
+theorem esf_constructors_leave_callers_objects (orc : Oracle) (env : Env) (h0 : Heap) :
+    (∀ l, l < h0.length → (exec orc Effects.esfInit (env, h0)).2[l]? = h0[l]?) ∧
+    (∀ l, l < h0.length → (exec orc Effects.exsInit (env, h0)).2[l]? = h0[l]?) ∧
+    (∀ l, l < h0.length → (exec orc Effects.tmcInit (env, h0)).2[l]? = h0[l]?) :=
+  ⟨safe_preserves orc _ env h0 (by decide), safe_preserves orc _ env h0 (by decide),
+    safe_preserves orc _ env h0 (by decide)⟩
+
+/-- **the whole life of a `StructureFunction`** (constructor, then `load`, `get_esf`, `drop_cache`,
+`get_result` in any order, any number of times): the only pre-existing things it stores into are its
+own `cache` and `esfs`, which the constructor created and every method leaves its own -/
+theorem sf_lifecycle_safe : lifecycleSafe Effects.sfInit Effects.sfMethods = true := by decide
+
+theorem sf_lifecycle_leaves_callers_objects (orc : Oracle) (calls : List (List Stmt))
+    (hc : ∀ c ∈ calls, c ∈ Effects.sfMethods) (env : Env) (h0 : Heap) :
+    ∀ l, l < h0.length → (exec orc (Effects.sfInit ++ calls.flatten) (env, h0)).2[l]? = h0[l]? :=
+  lifecycle_preserves orc _ _ sf_lifecycle_safe calls hc env h0
+
+theorem xs_lifecycle_leaves_callers_objects (orc : Oracle) (calls : List (List Stmt))
+    (hc : ∀ c ∈ calls, c ∈ Effects.xsMethods) (env : Env) (h0 : Heap) :
+    ∀ l, l < h0.length → (exec orc (Effects.xsInit ++ calls.flatten) (env, h0)).2[l]? = h0[l]? :=
+  lifecycle_preserves orc _ _ (by decide) calls hc env h0
+
 /-- where the cards (or objects reachable from them) leave the analysed code: constructors of eko's
 grid and basis, the scale-variation manager, the observable containers and — through `load` — the
 constructors of the evaluated structure functions / cross sections; numpy conversions; logging.
@@ -535,12 +561,15 @@ deep-comparison search (`cards_untouched_and_echoed`). A new callee shows up her
 def allowedEscapes : List String :=
   ["XGrid", "InterpolatorDispatcher", "cls", "np.array", "sv.ScaleVariations", "RunnerConfigs",
    "observable_name.ObservableName", "XS", "SF", "obs.load", "interpolator.to_dict",
-   "self.get_esf", "exs.EvaluatedCrossSection",
+   "self.get_esf", "exs.EvaluatedCrossSection", "esf.EvaluatedStructureFunction", "tmc.ESFTMCmap[obs_name.kind]",
+   "self.runner.get_sf(obs_name).get_esf", "self.runner.get_sf", "elem.get_result", "ESFResult", "ESFInfo",
    "rich.console.Console", "logger.setLevel", "ekologger.setLevel", "RichHandler", "rh.setFormatter",
    "logger.addHandler", "ekologger.addHandler", "logging.FileHandler"]
 
 theorem escapes_known :
-    ∀ e ∈ Effects.fromDictEscapes ++ Effects.runnerInitEscapes ++ Effects.sfLoadEscapes ++ Effects.xsLoadEscapes,
+    ∀ e ∈ Effects.fromDictEscapes ++ Effects.runnerInitEscapes ++ Effects.sfLoadEscapes ++ Effects.xsLoadEscapes
+        ++ Effects.esfInitEscapes ++ Effects.exsInitEscapes ++ Effects.tmcInitEscapes ++ Effects.sfLifeEscapes
+        ++ Effects.xsLifeEscapes,
       e.1 ∈ allowedEscapes := by decide
 
 /-- the model can exhibit the failure: one store through a parameter, or one nested store through a
